@@ -244,9 +244,11 @@ Definition cheque_update (s : state) (a : addr) : state :=
                f_rtraffic := rt; f_ttraffic := tt_; f_status := f_status t |} in
   {| hp := h; recs := set a t' (recs s); bal := bal s; m_pb := m_pb s; m_bp := m_bp s; dk := d |}.
 
-(** getAllAddress: addresses with a stored retrieve/transfer total, then the chain's lists *)
+(** the peer list of trafficInit: addresses with a stored retrieve/transfer total, addresses of the
+    last sent / received cheques (repo commit "restore peers known only through their cheques"),
+    then the chain's lists (getAllAddress) *)
 Definition address_list (d : disk) (l : list addr) : list addr :=
-  dedup_into [] (map fst (d_retrieve d) ++ map fst (d_transfer d) ++ l).
+  dedup_into [] (map fst (d_retrieve d) ++ map fst (d_transfer d) ++ map fst (d_last_send d) ++ map fst (d_last_recv d) ++ l).
 
 (** trafficInit *)
 Definition traffic_init (s : state) (cv : chainview) : err * state :=
